@@ -38,7 +38,10 @@ ASSUMPTIONS = [
 
 NMAX = {"quick": {1: 6, 2: 4, 3: 3}, "thorough": {1: 12, 2: 7, 3: 5}}
 FORMS = [("full", "direct"), ("pressure", "direct"), ("flux_reduced", "direct"), ("pressure", "amg"), ("pressure", "cg")]
-LSO = {"atol": 1e-10, "rtol": 1e-10, "maxiter": 300}
+# iterative back-ends: a purely RELATIVE tolerance (AMG reads its relative tolerance from "atol",
+# CG from "rtol" with an absolute tolerance of 0), so that right-hand sides of any magnitude are
+# solved to the same relative accuracy
+LSO = {"amg": {"atol": 1e-10, "maxiter": 300}, "cg": {"rtol": 1e-10, "atol": 0.0, "maxiter": 300}, "direct": {}}
 
 
 def describe(tier):
@@ -74,7 +77,7 @@ def solver(shape, vs, form):
     import darsia.measure.wasserstein as W
 
     grid = Wh.make_grid(shape, vs)
-    o = {"formulation": form[0], "linear_solver": form[1], "linear_solver_options": dict(LSO)}
+    o = {"formulation": form[0], "linear_solver": form[1], "linear_solver_options": dict(LSO[form[1]])}
     return W.WassersteinDistanceNewton(grid, None, o), grid
 
 
@@ -166,11 +169,25 @@ def run_systems(case, r):
             for name, b in todo:
                 cell = f"C08/solve/{form[0]}-{form[1]}/dim={dim}/{shape_cls(shape)}"
                 try:
-                    x, _ = obj.linear_solve(M.copy(), b.copy(), np.zeros_like(b))
+                    Mc, bc = M.copy(), b.copy()
+                    x, _ = obj.linear_solve(Mc, bc, np.zeros_like(b))
                 except Exception as e:  # noqa: BLE001
                     r.fail(cell + "/usable", "the formulation solves every admissible system", exception=repr(e)[:300], shape=shape, rhs=name)
                     break
                 x = np.asarray(x, dtype=float)
+                # the caller's system is still the original one afterwards
+                r.check(np.array_equal(bc, b) and (abs(Mc - M)).nnz == 0, f"C08/solve/{form[0]}-{form[1]}/system-unchanged", "linear_solve leaves the matrix and the right-hand side it was given unchanged", rhs=name, shape=shape)
+                # the same system at a very small magnitude (rhs x 2^-40 ~ 1e-12): the solve is
+                # linear, so the solution scales along - to the same RELATIVE accuracy
+                if name[0] in ("mass", "dense") or name == basis[0][0]:
+                    al = 2.0**-40
+                    try:
+                        xs, _ = obj.linear_solve(M.copy(), al * b, np.zeros_like(b))
+                        xs = np.asarray(xs, dtype=float)
+                        tols = 1e-6 if iterative else 1e-9
+                        r.check(float(np.max(np.abs(xs - al * x))) <= tols * al * max(1.0, float(np.max(np.abs(x)))), f"C08/solve/{form[0]}-{form[1]}/tiny-rhs", "a right-hand side of tiny magnitude is solved to the same relative accuracy (solution scales linearly)", rhs=name, shape=shape, err=float(np.max(np.abs(xs - al * x))) / al)
+                    except Exception as e:  # noqa: BLE001
+                        r.fail(f"C08/solve/{form[0]}-{form[1]}/tiny-rhs", "a right-hand side of tiny magnitude is solved", exception=repr(e)[:300], shape=shape)
                 tol = 1e-6 if iterative else 1e-9
                 resid = float(np.max(np.abs(Aref @ x - b)))
                 scale = max(1.0, float(np.max(np.abs(Aref) @ np.abs(x))))
